@@ -39,7 +39,14 @@ func tbsFamily(c map[string]json.RawMessage) (interface{}, error) {
 				return nil, err
 			}
 			defer os.RemoveAll(work)
-			if _, err := cocaCli(work, "tbs", "-p", dir); err != nil {
+			if boolean(c, "relroot") {
+				// run from inside the tree with the relative root `.` (the command's default): the report lands in the tree
+				work = dir
+				if _, err := cocaCli(dir, "tbs", "-p", "."); err != nil {
+					return nil, err
+				}
+				strip = ""
+			} else if _, err := cocaCli(work, "tbs", "-p", dir); err != nil {
 				return nil, err
 			}
 			var res []tfinding
